@@ -347,6 +347,7 @@ static std::string do_sf(const std::vector<std::string> &w)
     if (op == "add64") { vd1 = d_of(A), vd2 = d_of(B); double r = vd1 + vd2; return dbits(r); }
     if (op == "sub64") { vd1 = d_of(A), vd2 = d_of(B); double r = vd1 - vd2; return dbits(r); }
     if (op == "mul64") { vd1 = d_of(A), vd2 = d_of(B); double r = vd1 * vd2; return dbits(r); }
+    if (op == "div32") { vf1 = f_of(A), vf2 = f_of(B); float r = vf1 / vf2; return fbits(r); }
     if (op == "div64") { vd1 = d_of(A), vd2 = d_of(B); double r = vd1 / vd2; return dbits(r); }
     if (op == "cvt") { vd1 = d_of(A); float r = (float)vd1; return fbits(r); }
     if (op == "ext") { vf1 = f_of(A); double r = (double)vf1; return dbits(r); }
@@ -361,14 +362,14 @@ static std::string do_sf(const std::vector<std::string> &w)
     { // truncation toward zero, as a decimal integer; outside int64 / not finite: "ovf"
         vf1 = f_of(A);
         float f = vf1;
-        if (!(fabsf(f) < 9.2e18f)) return "ovf";
+        if (((A >> 23) & 0xff) >= 127 + 63) return "ovf"; // |f| >= 2^63, inf, nan
         return std::to_string((long long)f);
     }
     if (op == "tr64")
     {
         vd1 = d_of(A);
         double f = vd1;
-        if (!(fabs(f) < 9.2e18)) return "ovf";
+        if (((A >> 52) & 0x7ff) >= 1023 + 63) return "ovf";
         return std::to_string((long long)f);
     }
     return "bad-op";
@@ -833,6 +834,7 @@ static void gen(rng &r, const std::string &tier)
             if (r.chance(20)) b = a + ((uint64_t)r.range(-60, 60) << 52);
             static const char *O[] = {"add64", "sub64", "mul64", "div64", "lt64", "mul64"};
             printf("sf %s %016llx %016llx\n", O[r.below(6)], (unsigned long long)a, (unsigned long long)b);
+            if (i % 4 == 0) printf("sf div32 %08x %08x\n", r.pick(fp), r.chance(50) ? 0x41200000u : r.pick(fp));
         }
         for (uint64_t d : dp)
         {
